@@ -3,11 +3,13 @@ package rules
 import (
 	"fmt"
 	"go/token"
+	"sort"
 	"strings"
 
 	"golang.org/x/tools/go/ssa"
 
 	"hrverif/internal/core"
+	"hrverif/internal/flow"
 )
 
 // ruleConfigWholeFile is C16-R10: what gcfg parses as the configuration file is the whole file. The reader handed
@@ -119,4 +121,79 @@ func wholeFileReader(p *core.Program, fn *ssa.Function, v ssa.Value, depth int) 
 		return "" // no caller in the tree hands anything else
 	}
 	return "a value the rule cannot trace (" + v.String() + ")"
+}
+
+// ruleConfigFileName is C16-R12: the configuration file that Options.Load looks for and reads is the one the
+// config setting names (--config / HR_CONFIG / the flag's default): the name handed to the functions that stat, open
+// or read it derives from that flag and from nothing else. A name taken from another place (a second location tried
+// when the first is missing) replaces a file the user named with one they did not, and turns "the named file does
+// not exist" from an error into a silent substitution.
+func ruleConfigFileName(c *core.Ctx, rule string) {
+	load := c.P.LookupMethod(optionsPkg, "Options", "Load")
+	if !requireAnchor(c, rule, "options.Options.Load", load != nil) {
+		return
+	}
+	g := buildFlow(c)
+	n := 0
+	seen := map[*ssa.Function]bool{}
+	var visit func(fn *ssa.Function, depth int)
+	visit = func(fn *ssa.Function, depth int) {
+		if fn == nil || seen[fn] || depth > 3 || core.FnPkgPath(fn) != optionsPkg {
+			return
+		}
+		seen[fn] = true
+		for _, b := range fn.Blocks {
+			for _, in := range b.Instrs {
+				call, ok := in.(*ssa.Call)
+				if !ok {
+					continue
+				}
+				cal := core.Callee(&call.Call)
+				if cal == nil {
+					continue
+				}
+				switch cal.String() {
+				case "os.Stat", "os.Lstat", "os.Open", "os.ReadFile", "io/ioutil.ReadFile", "gopkg.in/gcfg.v1.ReadFileInto":
+					idx := 0
+					if strings.HasSuffix(cal.String(), "ReadFileInto") {
+						idx = 1
+					}
+					if idx >= len(call.Call.Args) {
+						continue
+					}
+					n++
+					fname := core.FuncName(fn)
+					pos := c.P.Pos(call.Pos())
+					c.Universe(rule+" file-system calls of the configuration loader", fname+": "+cal.String()+" ("+pos+")")
+					var foreign []string
+					fromFlag := false
+					for _, sc := range g.Sources(flow.ValueNode(call.Call.Args[idx])) {
+						nd := string(sc.Node)
+						switch {
+						case nd == "flag:String(config)":
+							fromFlag = true
+						case strings.HasPrefix(nd, "flag:"):
+							foreign = append(foreign, nd)
+						case strings.HasPrefix(nd, "ext:") || strings.HasPrefix(nd, "call:"):
+							foreign = append(foreign, nd)
+						}
+					}
+					if len(foreign) > 0 || !fromFlag {
+						sort.Strings(foreign)
+						c.Violate(rule, fname, cal.Name()+" name", pos, "the name of the configuration file handed to "+cal.String()+" derives from {"+strings.Join(uniq(foreign), ", ")+"} as well as, or instead of, the config setting: another location is tried or substituted, so a file the user named and that does not exist is replaced in silence, and settings come from a file nobody asked for", nil)
+					} else {
+						c.Discharge(rule, fname, cal.Name()+" name", pos, "the name derives from the config flag only")
+					}
+				default:
+					if c.P.InScope(cal) {
+						visit(cal, depth+1)
+					}
+				}
+			}
+		}
+	}
+	visit(load, 0)
+	if n == 0 {
+		c.Note(rule + ": Options.Load reaches no file-system call in package options")
+	}
 }
